@@ -1,5 +1,6 @@
 import TunnoxModel.Driver.Util
 import TunnoxModel.Spec.C17
+import TunnoxModel.Model.C17Slot
 /-!
 Line protocol for C17.
 
@@ -124,8 +125,47 @@ def capsLine : String :=
   s!"maxconn={lim_session.DefaultMaxConnections} maxctrl={lim_session.DefaultMaxControlConnections} " ++
   s!"codes={lim_conncode.MaxActiveCodesPerClient} mappings={lim_conncode.MaxActiveMappingsPerClient}"
 
+/-! ### slot scenarios: `slot lim <L> sch <m> (s<i> | c<i>)*`, obs `acq.i.n ref.i.n reg.i.n sta.i.n fal.i.n cls.i.n ncl.i.n* |` -/
+
+def parseSch (tok : String) : Option C17Slot.Sch :=
+  match tok.toList with
+  | 's' :: r => (String.ofList r).toNat?.map C17Slot.Sch.step
+  | 'c' :: r => (String.ofList r).toNat?.map C17Slot.Sch.close
+  | _ => none
+
+def parseSlot (ts : List String) : Option (Nat × List C17Slot.Sch) :=
+  match ts with
+  | "slot" :: "lim" :: l :: "sch" :: m :: rest => do
+    let l ← l.toNat?; let m ← m.toNat?
+    let σ ← rest.mapM parseSch
+    if σ.length = m then pure (l, σ) else none
+  | _ => none
+
+def renderSlotEv : C17Slot.Ev → String
+  | .acq i n => s!"acq.{i}.{n}"
+  | .ref i n => s!"ref.{i}.{n}"
+  | .reg i n => s!"reg.{i}.{n}"
+  | .sta i n => s!"sta.{i}.{n}"
+  | .fal i n => s!"fal.{i}.{n}"
+  | .cls i n => s!"cls.{i}.{n}"
+  | .ncl i n => s!"ncl.{i}.{n}"
+
+def parseSlotEv (tok : String) : Option C17Slot.Ev :=
+  match tok.splitOn "." with
+  | [k, i, n] => do
+    let i ← i.toNat?; let n ← n.toNat?
+    match k with
+    | "acq" => pure (.acq i n) | "ref" => pure (.ref i n) | "reg" => pure (.reg i n) | "sta" => pure (.sta i n)
+    | "fal" => pure (.fal i n) | "cls" => pure (.cls i n) | "ncl" => pure (.ncl i n) | _ => none
+  | _ => none
+
 def runModel (ts : List String) : String :=
   if ts = ["caps"] then capsLine else
+  if ts.head? = some "slot" then
+    match parseSlot ts with
+    | none => "bad-case"
+    | some (l, σ) => " ".intercalate ((C17Slot.run true l C17Slot.init σ).trace.map renderSlotEv ++ ["|"])
+  else
   match parseCase ts with
   | none => "bad-case"
   | some c =>
@@ -141,6 +181,10 @@ def runHolds (caseToks obsToks : List String) : String :=
              lim_sessioncfg.MaxControlConnections == lim_session.DefaultMaxControlConnections)
   else
   match caseToks with
+  | "slot" :: _ =>
+    match parseSlot caseToks, (obsToks.takeWhile (· != "|")).mapM parseSlotEv with
+    | some (l, _), some evs => boolStr (obsToks.contains "|" && C17Slot.holds l evs)
+    | _, _ => "false"
   | "free" :: _ =>
     match parseFree caseToks, parseFreeObs obsToks with
     | some c, some (a, r, m, f, d) => boolStr (holdsFree c.proto.zeroUnl c.limit c.pre c.n a r m f d)
